@@ -512,5 +512,12 @@ def rule_builders_fresh(ctx):
     rb(ctx, 'C05.h')
 
 
+
+def rule_adapter_cancellation(ctx):
+    """Cancelling a request made through the awaitable adapter cancels the socket's future: the adapter does not shield it (shared C01.h delegations)."""
+    from .awaitable import rule_delegations
+    rule_delegations(ctx, 'C01.h')
+
+
 RULES = [('C09.a', rule_a), ('C09.b', rule_b), ('C09.c', rule_c), ('C09.d', rule_d), ('C09.e', rule_e),
-         ('C09.f', c07b), ('C09.g', rule_g), ('C05.a', rule_order), ('C20.d', rule_rx), ('C09.i', rule_router_future), ('C09.j', rule_generator_adapters), ('C05.h', rule_builders_fresh)]
+         ('C09.f', c07b), ('C09.g', rule_g), ('C05.a', rule_order), ('C20.d', rule_rx), ('C09.i', rule_router_future), ('C09.j', rule_generator_adapters), ('C05.h', rule_builders_fresh), ('C01.h', rule_adapter_cancellation)]
